@@ -19,7 +19,7 @@ Ltac split_tests :=
          | |- context [?a =? ?b] => destruct (Z.eqb_spec a b)
          end.
 Ltac gen_eq := intros; cbv beta delta [bridge_admit handler_enabled convert_logslog_level convert_level_to_logslog
-    logsloglevel2level bridge_admit_model bridge_admit_ref handler_enabled_ref convert_logslog_level_ref
+    logsloglevel2level bridge_admit_model bridge_admit_ref bridge_admit_now handler_enabled_ref convert_logslog_level_ref
     convert_level_to_logslog_ref logsloglevel2level_ref log_level_conv log_listed fix_bridge fix_log_default
     lv_panic lv_fatal lv_error lv_warn lv_info lv_debug lv_trace lv_off lv_always]; cbv iota beta;
   try reflexivity;
